@@ -371,6 +371,33 @@ def _kalman(P, use_scan):
     return jnp.concatenate([mus.ravel(), filt.Sigma.ravel(), ll[None]])
 
 
+def _bayes(P, use_scan):
+    """Recursive Bayesian updating through likelihood FACTORS: the carry starts as a constructor-built prior and is replaced
+    by prior.hadamard(likelihood factor).get_density() in every step (the carry must keep its pytree structure)."""
+    emis = conditional.ConditionalGaussianPDF(M=R1(P["W1"]), b=R1(P["w1"]), Sigma=R1(jnp.exp(P["c0"]).reshape(1, 1)))
+    obs = P["y"][:, :1]
+
+    def step(carry, y_t):
+        post, ll = carry
+        m = post.hadamard(emis.set_y(y_t[None]), update_full=True)
+        ll = ll + m.log_integral()[0]
+        post = m.get_density()
+        return (post, ll), post.mu[0]
+
+    carry = (_prior(P), jnp.zeros(()))
+    if use_scan:
+        (post, ll), mus = jax.lax.scan(step, carry, obs)
+    else:
+        mus = []
+        for t in range(obs.shape[0]):
+            carry, mm = step(carry, obs[t])
+            mus.append(mm)
+        (post, ll), mus = carry, jnp.stack(mus)
+    return jnp.concatenate([mus.ravel(), post.Sigma.ravel(), ll[None]])
+
+
+TEMPLATES["BayesFactorUpdate.python_loop"] = (lambda P: _bayes(P, False), False, 1e-6)
+TEMPLATES["BayesFactorUpdate.lax_scan"] = (lambda P: _bayes(P, True), False, 1e-6)
 TEMPLATES["Kalman.python_loop"] = (lambda P: _kalman(P, False), False, 1e-6)
 TEMPLATES["Kalman.lax_scan"] = (lambda P: _kalman(P, True), False, 1e-6)
 
@@ -471,11 +498,12 @@ def run_shard(shard, ctx):
         f, data, gtol = TEMPLATES[shard["name"]]
         if ctx.case(dict(template=shard["name"])):
             check_program(ctx, shard["name"], f, P, data, gtol, dict(template=shard["name"]))
-            if shard["name"] == "Kalman.lax_scan":
+            if shard["name"] in ("Kalman.lax_scan", "BayesFactorUpdate.lax_scan"):
                 full = dict(P)
                 full["x"], full["y"] = J(DATA["x"]), J(DATA["y"])
+                fn = _kalman if shard["name"].startswith("Kalman") else _bayes
                 with ctx.guard("program.scan_vs_loop", dict(template=shard["name"])):
-                    ctx.close("program.scan_vs_loop", np.asarray(_kalman(full, True)), np.asarray(_kalman(full, False)), facts=dict(template=shard["name"]), symptom="scan_differs")
+                    ctx.close("program.scan_vs_loop", np.asarray(fn(full, True)), np.asarray(fn(full, False)), facts=dict(template=shard["name"]), symptom="scan_differs")
             ctx.count("states")
             ctx.count("transitions")
         return
